@@ -403,7 +403,14 @@ let run_cw (c : case) =
        | None -> ()
        | Some pvs ->
          let cpvs = List.map (fun (p, v) -> ((match M.chars_of p with Some cs -> cs | None -> p), v)) pvs in
-         pr "MCCERT %d\n" (if M.cw_cert_ok zeqb a cpvs then 1 else 0));
+         pr "MCCERT %d\n" (if M.cw_cert_ok zeqb a cpvs then 1 else 0)
+     else
+       match spec_pvs c with
+       | None -> ()
+       | Some pvs ->
+         let pvs = if c.kind = 2 then M.effective pvs else pvs in
+         let cpvs = List.map (fun (p, v) -> ((match M.chars_of p with Some cs -> cs | None -> p), v)) pvs in
+         pr "MLCERT %d\n" (if M.cw_lm_cert_ok zeqb a cpvs then 1 else 0));
     pr "MSAFE %d\n" (if M.cw_safe_b a then 1 else 0);
     if String.contains c.ops 'S' then cw_searches a c "";
     if String.contains c.ops 'K' then kindchk c.kind;
@@ -482,7 +489,15 @@ let cert_image (c : case) =
     | M.Ok (a, rest) ->
       pr "ISAFE %d\n" (if M.cw_safe_b a then 1 else 0);
       if rest <> [] then pr "ICERT 0 0 trailing\n"
-      else if a.M.cw_kind <> M.Standard then pr "ICERT - 0 notstandard\n"
+      else if a.M.cw_kind <> M.Standard then begin
+        (match spec_pvs c with
+         | None -> pr "ILCERT - nopvs\n"
+         | Some pvs ->
+           let pvs = if a.M.cw_kind = M.LeftmostFirst then M.effective pvs else pvs in
+           let cpvs = List.map (fun (p, v) -> ((match M.chars_of p with Some cs -> cs | None -> p), v)) pvs in
+           pr "ILCERT %d\n" (if M.cw_lm_cert_ok zeqb a cpvs then 1 else 0));
+        pr "ICERT - 0 notstandard\n"
+      end
       else (match spec_pvs c with
           | None -> pr "ICERT - 0 nopvs\n"
           | Some pvs ->
